@@ -76,6 +76,10 @@ CLAIMED = {
          PBT + ": C05's schedule-owning executor plus drop actions at generated suspension points; oracle = survivors resolve with their own tag at quiescence and a further request completes",
          "C05's worlds with 1..2 drops of a waiter task (never polled / polled / polled while a send is pending and the request map is locked). Every surviving request must still resolve with its own reply and the session must stay usable. The confirmed defect (reply lost when the reader is dropped at the request-map lock) was repaired; its minimal schedule is a regression input.",
          "As C05."),
+ "C19": ("exploration", "DESIGN.md section 3 C19",
+         PBT + ": generated histories (period, run outcomes and durations, SIGHUP / SIGTERM / SIGINT instants) against the agent's real daemon loop on a paused-time (virtual clock) tokio runtime with real Unix signals; oracle = reference timing model over the time line of run starts",
+         "The real Loop::start runs under tokio's virtual time; each run is a scripted outcome installed through a hook, signals are raised with libc::raise inside waiting intervals. The observed time line of run starts and the loop's exit are compared with a reference model: first run immediately, period after a success, 60 s after the first failure, non-decreasing and strictly growing retry delays up to max(60 s, period), reset by success, SIGHUP runs at once, SIGTERM/SIGINT exit cleanly. The confirmed defect (period < 60 s shrinks the delay) was repaired.",
+         "Run bodies are scripted (the real job needs block_in_place, impossible on a paused current-thread runtime); signals only while waiting; virtual time tolerance 2 ms."),
 }
 
 def hooks_commits():
